@@ -190,7 +190,7 @@ def run_conc(sess, spec, loop_bound=6, max_rounds=8, timeout_s=600, max_spurious
                 if a in widened:
                     ent[1] = True
                     ent[0] = set()
-                elif rounds >= 3 and a in summ[i] and not ent[1] and len(ent[0]) > len(summ[i][a][0]) and len(ent[0]) > 3:
+                elif rounds >= 3 and a in summ[i] and not ent[1] and len(ent[0]) > len(summ[i][a][0]) and len(ent[0]) > 6:
                     widened.add(a)
                     ent[1] = True
                     ent[0] = set()
